@@ -49,16 +49,23 @@ class GroupCtx:
             if not nonzero or not self.F.is_zero(v):
                 return v
 
-    ZS1 = ('2', '-2', 'limbs=1', 'R', '2^64', '1/2')
-    ZS2 = ('1+tu', '1+u', '1-u', 'u', 'tu', 't', '-1+tu', 't+u', 'limbs=1', '1+limbs1*u', '2')
+    # 'limbs=V': the value whose INTERNAL (Montgomery) limbs read V - structure in the representation the inversion, comparison and
+    # is-zero / is-one code actually looks at (trailing zero words, a single bit, one word)
+    ZS1 = ('2', '-2', 'limbs=1', 'R', '2^64', '1/2', 'limbs=2^32', 'limbs=2^40', 'limbs=2^63', 'limbs=2^64', 'limbs=2^96+2^33', 'limbs=2^192*t')
+    ZS2 = ('1+tu', '1+u', '1-u', 'u', 'tu', 't', '-1+tu', 't+u', 'limbs=1', '1+limbs1*u', '2', 'limbs=2^40', 'limbs=2^32*u', 'limbs=2^192*(t+tu)')
 
     def structured_z(self, rng):
         t = rng.randrange(1, Q)
         rinv = pow(1 << 384, -1, Q)          # the value whose internal (Montgomery) limbs are 0..01
+        def lim(v):
+            return v % Q * rinv % Q
+        hi = lambda: lim((rng.getrandbits(180) | 1) << 192)
         if self.which == 1:
-            return {'2': 2, '-2': Q - 2, 'limbs=1': rinv, 'R': (1 << 384) % Q, '2^64': (1 << 64) % Q, '1/2': pow(2, -1, Q)}
+            return {'2': 2, '-2': Q - 2, 'limbs=1': rinv, 'R': (1 << 384) % Q, '2^64': (1 << 64) % Q, '1/2': pow(2, -1, Q),
+                    'limbs=2^32': lim(1 << 32), 'limbs=2^40': lim(1 << 40), 'limbs=2^63': lim(1 << 63), 'limbs=2^64': lim(1 << 64), 'limbs=2^96+2^33': lim((1 << 96) + (1 << 33)),
+                    'limbs=2^192*t': hi()}
         return {'1+tu': (1, t), '1+u': (1, 1), '1-u': (1, Q - 1), 'u': (0, 1), 'tu': (0, t), 't': (t, 0), '-1+tu': (Q - 1, t), 't+u': (t, 1),
-                'limbs=1': (rinv, 0), '1+limbs1*u': (1, rinv), '2': (2, 0)}
+                'limbs=1': (rinv, 0), '1+limbs1*u': (1, rinv), '2': (2, 0), 'limbs=2^40': (lim(1 << 40), 0), 'limbs=2^32*u': (0, lim(1 << 32)), 'limbs=2^192*(t+tu)': (hi(), hi())}
 
     def zkinds(self):
         return ['z1', 'zm', 'zr'] + ['zs:' + k for k in (self.ZS1 if self.which == 1 else self.ZS2)]
